@@ -68,14 +68,14 @@ class Parser:
             e = self.expr(); self.expect(';'); return ('return', e)
         if p == 'for':
             self.next(); self.expect('(')
-            while self.peek() in TYPES: self.next()
+            while self.peek() in TYPES or self.peek() == '*': self.next()
             v = self.next(); self.expect('='); init = self.expr(); self.expect(';')
             c = self.expr(); self.expect(';')
             step = self.expr(); self.expect(')')
             body = self.stmt()
-            if init != ('num', 0) or c[0] != 'bin' or c[1] != '<' or c[2] != ('id', v) or step not in (('post', '++', ('id', v)), ('pre', '++', ('id', v))):
-                raise Untranslatable('for loop is not `for (i = 0; i < n; i++)`')
-            return ('for', v, c[3], body)
+            if step not in (('post', '++', ('id', v)), ('pre', '++', ('id', v))):
+                raise Untranslatable('for loop does not step by ++')
+            return ('for', v, init, c, body)
         if p in ('foreach', 'while', 'do', 'switch', 'goto'):
             raise Untranslatable('statement form `%s` is outside the fragment' % p)
         if p in TYPES:
@@ -154,7 +154,8 @@ class Parser:
                 self.expect(')'); return self.p_un()
             e = self.expr(); self.expect(')'); return e
         if p == '$':
-            n = self.next(); self.expect('('); args = []
+            n = '' if self.peek() == '(' else self.next()
+            self.expect('('); args = []
             while self.peek() != ')':
                 args.append(self.expr())
                 if self.peek() == ',': self.next()
@@ -179,99 +180,155 @@ def st_term(st):
 
 
 class Exec:
-    """helpers: {name: (params, body_ast)} — functions that may be inlined (one level is all these need)"""
+    """helpers: {name: (params, body_ast)} — static functions of Exception.c, inlined where they are called
+    (at most two levels deep).  Values are (type, term); types: nat bool optbool obj msg buf list elem
+    items items_end ptrvar loopvar rec void."""
 
     def __init__(self, helpers, consts):
         self.helpers, self.consts = helpers, consts
         self.fresh = 0
-
-    # values are (type, term); types: nat bool obj optbool list elem void
-    def eval(self, e, st, env, k):
-        t = e[0]
-        if t == 'num': return k(('nat', str(e[1])))
-        if t == 'id':
-            n = e[1]
-            if n in env: return k(env[n])
-            if n in self.consts: return k(('nat', self.consts[n]))
-            if n == 'NULL': return k(('obj', 'None'))
-            if n in ('true', 'false'): return k(('bool', n))
-            raise Untranslatable('unknown name %s' % n)
-        if t == 'field':
-            if e[1] not in (('id', 'e'), ('id', 'self')) or env.get('e') != ('rec', 'e'):
-                raise Untranslatable('field access on something else than the exception record')
-            f = e[2]
-            if f == 'depth': return k(('nat', st['depth']))
-            if f == 'active': return k(('bool', st['active']))
-            if f == 'obj': return k(('obj', st['obj']))
-            if f == 'msg': return k(('msg', st['msg']))
-            if f == 'buffers': return k(('buf', st['buf']))
-            raise Untranslatable('unknown field %s' % f)
-        if t == 'index':
-            return self.eval(e[1], st, env, lambda b: self.need(b, 'buf') and
-                             self.eval(e[2], st, env, lambda i: self.need(i, 'nat') and k(('nat', '(%s %s)' % (b[1], i[1])))))
-        if t == 'un':
-            if e[1] == '!':
-                return self.eval(e[2], st, env, lambda v: self.need(v, 'bool') and k(('bool', '(negb %s)' % v[1])))
-            if e[1] == '*':        # *Exception_Buffer(e): the jmp_buf the pointer designates = the pointer, in the model
-                return self.eval(e[2], st, env, k)
-            raise Untranslatable('unary %s' % e[1])
-        if t == 'bin':
-            op = e[1]
-            def both(a, b):
-                if op in ('&&', '||'):
-                    self.need(a, 'bool'); self.need(b, 'bool')
-                    return k(('bool', '(%s %s %s)' % ('andb' if op == '&&' else 'orb', a[1], b[1])))
-                if op in ('+', '-'):
-                    self.need(a, 'nat'); self.need(b, 'nat')
-                    return k(('nat', '(%s %s %s)' % (a[1], op, b[1])))
-                if a[0] == 'nat' and b[0] == 'nat':
-                    tm = {'==': '(%s =? %s)', '!=': '(negb (%s =? %s))', '<': '(%s <? %s)', '<=': '(%s <=? %s)',
-                          '>': '(%s <? %s)', '>=': '(%s <=? %s)'}[op]
-                    x, y = (b[1], a[1]) if op in ('>', '>=') else (a[1], b[1])
-                    return k(('bool', tm % (x, y)))
-                if a[0] == 'bool' and b[0] == 'bool' and op in ('==', '!='):
-                    z = '(Bool.eqb %s %s)' % (a[1], b[1])
-                    return k(('bool', z if op == '==' else '(negb %s)' % z))
-                if a[0] == 'obj' and b == ('obj', 'None') and op in ('==', '!='):
-                    z = '(match %s with None => true | Some _ => false end)' % a[1]
-                    return k(('bool', z if op == '==' else '(negb %s)' % z))
-                raise Untranslatable('comparison %s of %s and %s' % (op, a[0], b[0]))
-            return self.eval(e[2], st, env, lambda a: self.eval(e[3], st, env, lambda b: both(a, b)))
-        if t == 'call':
-            f, args = e[1], e[2]
-            if f == 'current' and args == [('id', 'Exception')]: return k(('rec', 'e'))
-            if f == 'len' and len(args) == 1:
-                return self.eval(args[0], st, env, lambda a: self.need(a, 'list') and k(('nat', '(List.length %s)' % a[1])))
-            if f == '$I' and len(args) == 1:
-                return self.eval(args[0], st, env, k)
-            if f == 'get' and len(args) == 2:
-                def got(a, i):
-                    self.need(a, 'list')
-                    if i[0] != 'loopvar': raise Untranslatable('get with an index that is not the loop variable')
-                    return k(('elem', i[1]))
-                return self.eval(args[0], st, env, lambda a: self.eval(args[1], st, env, lambda i: got(a, i)))
-            if f == 'eq' and len(args) == 2:
-                def eqq(a, b):
-                    if a[0] == 'elem' and b[0] == 'obj': return k(('optbool', '(c_eq eqf %s %s)' % (a[1], b[1])))
-                    raise Untranslatable('eq on %s and %s' % (a[0], b[0]))
-                return self.eval(args[0], st, env, lambda a: self.eval(args[1], st, env, lambda b: eqq(a, b)))
-            if f in self.helpers:
-                params, body = self.helpers[f]
-                if len(params) != len(args): raise Untranslatable('arity of %s' % f)
-                def bind(vals, rest):
-                    if not rest:
-                        env2 = dict(zip(params, vals))
-                        if env2.get('e') == ('rec', 'e') or env2.get('self') == ('rec', 'e'):
-                            env2['e'] = ('rec', 'e')
-                        return self.block([body], st, env2, lambda st2, env3: k(('void', '')), lambda st2, v: k(v))
-                    return self.eval(rest[0], st, env, lambda v: bind(vals + [v], rest[1:]))
-                return bind([], args)
-            raise Untranslatable('call of %s in an expression' % f)
-        raise Untranslatable('expression form %s' % t)
+        self.inline_depth = 0
+        self.uses_is_tuple = False
 
     def need(self, v, ty):
         if v[0] != ty: raise Untranslatable('expected %s, found %s' % (ty, v[0]))
         return True
+
+    def as_nat(self, v):
+        if v == ('obj', 'None'): return ('nat', '0')          # NULL as a jmp_buf pointer
+        self.need(v, 'nat'); return v
+
+    def is_rec(self, e, env):
+        return e[0] == 'id' and env.get(e[1]) == ('rec', 'e')
+
+    def evals(self, es, st, env, k, acc=None):
+        acc = acc or []
+        if not es: return k(acc, st)
+        return self.eval(es[0], st, env, lambda v, st2: self.evals(es[1:], st2, env, k, acc + [v]))
+
+    def eval(self, e, st, env, k):
+        """k(value, state): expressions may change the state (depth++ inside an index) or abort (helpers)"""
+        t = e[0]
+        if t == 'num': return k(('nat', str(e[1])), st)
+        if t == 'id':
+            n = e[1]
+            if n in env: return k(env[n], st)
+            if n in self.consts: return k(('nat', self.consts[n]), st)
+            if n == 'NULL': return k(('obj', 'None'), st)
+            if n in ('true', 'false'): return k(('bool', n), st)
+            if n == 'Tuple': return k(('type', 'Tuple'), st)
+            raise Untranslatable('unknown name %s' % n)
+        if t == 'field':
+            if self.is_rec(e[1], env):
+                f = e[2]
+                if f == 'depth': return k(('nat', st['depth']), st)
+                if f == 'active': return k(('bool', st['active']), st)
+                if f == 'obj': return k(('obj', st['obj']), st)
+                if f == 'msg': return k(('msg', st['msg']), st)
+                if f == 'buffers': return k(('buf', st['buf']), st)
+                raise Untranslatable('unknown field %s' % f)
+            if e[1][0] == 'id' and env.get(e[1][1]) == ('list', 'args') and e[2] == 'items':
+                return k(('items', 'args'), st)         # ((struct Tuple*)args)->items
+            raise Untranslatable('field access on something else than the exception record')
+        if t == 'index':
+            return self.eval(e[1], st, env, lambda b, st1: self.need(b, 'buf') and
+                             self.eval(e[2], st1, env, lambda i, st2: self.need(i, 'nat') and
+                                       k(('nat', '(%s %s)' % (b[1], i[1])), st2)))
+        if t in ('post', 'pre'):
+            tgt = e[2]
+            if tgt[0] == 'field' and self.is_rec(tgt[1], env) and tgt[2] == 'depth':
+                old = st['depth']
+                new = '(%s %s 1)' % (old, '+' if e[1] == '++' else '-')
+                return k(('nat', old if t == 'post' else new), dict(st, depth=new))
+            raise Untranslatable('++/-- on something else than e->depth')
+        if t == 'un':
+            if e[1] == '!':
+                def neg(v, st1):
+                    if v[0] == 'optbool': return k(('optbool', '(option_map negb %s)' % v[1]), st1)
+                    self.need(v, 'bool'); return k(('bool', '(negb %s)' % v[1]), st1)
+                return self.eval(e[2], st, env, neg)
+            if e[1] == '*':
+                def deref(v, st1):
+                    if v[0] == 'ptrvar': return k(('elem', v[1]), st1)      # *item in the pointer walk
+                    return k(v, st1)                                        # *Exception_Buffer(e): the buffer itself
+                return self.eval(e[2], st, env, deref)
+            raise Untranslatable('unary %s' % e[1])
+        if t == 'bin':
+            op = e[1]
+            def both(a, b, st2):
+                if op in ('&&', '||'):
+                    self.need(a, 'bool'); self.need(b, 'bool')
+                    return k(('bool', '(%s %s %s)' % ('andb' if op == '&&' else 'orb', a[1], b[1])), st2)
+                if op == '+' and a[0] == 'items' and b == ('nat', '(List.length args)'):
+                    return k(('items_end', 'args'), st2)
+                if op in ('+', '-'):
+                    self.need(a, 'nat'); self.need(b, 'nat')
+                    return k(('nat', '(%s %s %s)' % (a[1], op, b[1])), st2)
+                if a[0] == 'bool' and b[0] == 'bool' and op in ('==', '!='):
+                    z = '(Bool.eqb %s %s)' % (a[1], b[1])
+                    return k(('bool', z if op == '==' else '(negb %s)' % z), st2)
+                if a[0] == 'obj' and a[1] != 'None' and b == ('obj', 'None') and op in ('==', '!='):
+                    z = '(match %s with None => true | Some _ => false end)' % a[1]
+                    return k(('bool', z if op == '==' else '(negb %s)' % z), st2)
+                if a[0] == 'typeof' and b == ('type', 'Tuple') and op == '==':
+                    self.uses_is_tuple = True
+                    return k(('bool', 'args_is_tuple'), st2)
+                if (a[0] == 'nat' or a == ('obj', 'None')) and (b[0] == 'nat' or b == ('obj', 'None')):
+                    a, b = self.as_nat(a), self.as_nat(b)
+                    tm = {'==': '(%s =? %s)', '!=': '(negb (%s =? %s))', '<': '(%s <? %s)', '<=': '(%s <=? %s)',
+                          '>': '(%s <? %s)', '>=': '(%s <=? %s)'}[op]
+                    x, y = (b[1], a[1]) if op in ('>', '>=') else (a[1], b[1])
+                    return k(('bool', tm % (x, y)), st2)
+                raise Untranslatable('operator %s on %s and %s' % (op, a[0], b[0]))
+            return self.eval(e[2], st, env, lambda a, st1: self.eval(e[3], st1, env, lambda b, st2: both(a, b, st2)))
+        if t == 'call':
+            f, args = e[1], e[2]
+            if f == 'current' and args == [('id', 'Exception')]: return k(('rec', 'e'), st)
+            if f == 'type_of' and len(args) == 1:
+                return self.eval(args[0], st, env, lambda a, st1: self.need(a, 'list') and k(('typeof', a[1]), st1))
+            if f == 'len' and len(args) == 1:
+                return self.eval(args[0], st, env, lambda a, st1: self.need(a, 'list') and k(('nat', '(List.length %s)' % a[1]), st1))
+            if f == '$I' and len(args) == 1:
+                return self.eval(args[0], st, env, k)
+            if f == 'get' and len(args) == 2:
+                def got(vs, st1):
+                    self.need(vs[0], 'list')
+                    if vs[1][0] != 'loopvar': raise Untranslatable('get with an index that is not the loop variable')
+                    return k(('elem', vs[1][1]), st1)
+                return self.evals(args, st, env, got)
+            if f == 'eq' and len(args) == 2:
+                def eqq(vs, st1):
+                    if vs[0][0] == 'elem' and vs[1][0] == 'obj': return k(('optbool', '(c_eq eqf %s %s)' % (vs[0][1], vs[1][1])), st1)
+                    raise Untranslatable('eq on %s and %s' % (vs[0][0], vs[1][0]))
+                return self.evals(args, st, env, eqq)
+            if f in self.helpers:
+                return self.inline(f, args, st, env, lambda st2: k(('void', ''), st2), lambda st2, v: k(v, st2))
+            raise Untranslatable('call of %s in an expression' % f)
+        raise Untranslatable('expression form %s' % t)
+
+    def inline(self, f, args, st, env, fell, ret):
+        params, body = self.helpers[f]
+        if isinstance(body, str):                 # parsed on first use
+            body = Parser(body).block()
+            self.helpers[f] = (params, body)
+        if len(params) != len(args): raise Untranslatable('arity of %s' % f)
+        if self.inline_depth >= 3: raise Untranslatable('helper calls nested too deep')
+        def run(vals, st1):
+            self.inline_depth += 1
+            try:
+                return self.block([body], st1, dict(zip(params, vals)), lambda st2, env2: fell(st2), ret)
+            finally:
+                self.inline_depth -= 1
+        return self.evals(args, st, env, run)
+
+    def cond(self, c, yes, no):
+        """a two-way decision on a bool or on an eq result (None = eq applied to NULL: wild)"""
+        if c[0] == 'optbool':
+            return '(match %s with None => CWild | Some true => %s | Some false => %s end)' % (c[1], yes(), no())
+        self.need(c, 'bool')
+        if c[1] == 'true': return yes()
+        if c[1] == 'false': return no()
+        return '(if %s then %s else %s)' % (c[1], yes(), no())
 
     def block(self, stmts, st, env, k, ret):
         """k(st, env): what follows the statements; ret(st, value): what a `return` does"""
@@ -284,80 +341,116 @@ class Exec:
             return self.block(s[1], st, env, lambda st2, env2: go(st2, {n: v for n, v in env2.items() if n in env}), ret)
         if t == 'decl':
             if s[2] is None: return go(st, dict(env, **{s[1]: ('undef', '')}))
-            return self.eval(s[2], st, env, lambda v: go(st, dict(env, **{s[1]: v})))
+            return self.eval(s[2], st, env, lambda v, st2: go(st2, dict(env, **{s[1]: v})))
         if t == 'assign':
             lv = s[1]
-            def store(v):
-                st2 = dict(st)
-                if lv[0] == 'field' and lv[1] == ('id', 'e') and env.get('e') == ('rec', 'e'):
+            def store(v, st1):
+                if lv[0] == 'field' and self.is_rec(lv[1], env):
                     f = lv[2]
                     want = {'depth': 'nat', 'active': 'bool', 'obj': 'obj'}.get(f)
                     if want is None: raise Untranslatable('assignment to e->%s' % f)
-                    self.need(v, want); st2[f] = v[1]
-                    return go(st2, env)
-                if lv[0] == 'index' and lv[1] == ('field', ('id', 'e'), 'buffers'):
-                    self.need(v, 'nat')
-                    return self.eval(lv[2], st, env, lambda i: self.need(i, 'nat') and
-                                     go(dict(st, buf='(upd %s %s %s)' % (st['buf'], i[1], v[1])), env))
-                if lv[0] == 'id' and lv[1] in env and env[lv[1]][0] in ('nat', 'bool', 'obj', 'undef'):
-                    return go(st, dict(env, **{lv[1]: v}))
+                    self.need(v, want)
+                    return go(dict(st1, **{f: v[1]}), env)
+                if lv[0] == 'index' and lv[1][0] == 'field' and self.is_rec(lv[1][1], env) and lv[1][2] == 'buffers':
+                    v = self.as_nat(v)
+                    return self.eval(lv[2], st1, env, lambda i, st2: self.need(i, 'nat') and
+                                     go(dict(st2, buf='(upd %s %s %s)' % (st2['buf'], i[1], v[1])), env))
+                if lv[0] == 'id' and lv[1] in env and env[lv[1]][0] in ('nat', 'bool', 'optbool', 'obj', 'undef'):
+                    return go(st1, dict(env, **{lv[1]: v}))
                 raise Untranslatable('assignment target')
+            # C evaluates the right-hand side and the index in unspecified order; the functions at hand
+            # never have side effects on both sides
             return self.eval(s[2], st, env, store)
         if t == 'expr':
             e = s[1]
             if e[0] in ('post', 'pre'):
-                tgt = e[2]
-                if tgt == ('field', ('id', 'e'), 'depth') and env.get('e') == ('rec', 'e'):
-                    return go(dict(st, depth='(%s %s 1)' % (st['depth'], '+' if e[1] == '++' else '-')), env)
-                raise Untranslatable('++/-- on something else than e->depth')
+                return self.eval(e, st, env, lambda v, st2: go(st2, env))
             if e[0] == 'call':
                 f, args = e[1], e[2]
                 if f in ('fprintf', 'fflush'): return go(st, env)
                 if f == 'abort' and not args: return 'CAbort'
-                if f == 'Exception_Error' and args == [('id', 'e')]: return 'CDie %s' % st_term(st)
+                if f == 'Exception_Error' and len(args) == 1 and self.is_rec(args[0], env): return 'CDie %s' % st_term(st)
                 if f == 'longjmp' and len(args) == 2 and args[1] == ('num', 1):
-                    return self.eval(args[0], st, env, lambda v: self.need(v, 'nat') and 'CJump %s %s' % (st_term(st), v[1]))
+                    return self.eval(args[0], st, env, lambda v, st2: self.need(v, 'nat') and 'CJump %s %s' % (st_term(st2), v[1]))
                 if f == 'print_to_with':
-                    if len(args) != 4 or args[0] != ('field', ('id', 'e'), 'msg') or args[1] != ('num', 0):
+                    if len(args) != 4 or args[0][0] != 'field' or not self.is_rec(args[0][1], env) or args[0][2] != 'msg' or args[1] != ('num', 0):
                         raise Untranslatable('print_to_with is not print_to_with(e->msg, 0, fmt, args)')
                     self.fresh += 1
                     s1 = 's%d' % self.fresh
                     st2 = entry_state(s1)
                     st2['msg'] = '(setmsg %s)' % st2['msg']
                     return 'CFormat %s (fun %s => %s)' % (st_term(st), s1, self.block(rest, st2, env, k, ret))
+                if f in self.helpers:
+                    return self.inline(f, args, st, env, lambda st2: go(st2, env), lambda st2, v: go(st2, env))
                 raise Untranslatable('call of %s as a statement' % f)
             raise Untranslatable('expression statement')
         if t == 'if':
-            def br(c):
-                self.need(c, 'bool')
-                a = self.block([s[2]], st, env, go, ret)
-                b = self.block([s[3]], st, env, go, ret)
-                return '(if %s then %s else %s)' % (c[1], a, b)
-            return self.eval(s[1], st, env, br)
+            return self.eval(s[1], st, env, lambda c, st1: self.cond(
+                c, lambda: self.block([s[2]], st1, env, go, ret), lambda: self.block([s[3]], st1, env, go, ret)))
         if t == 'return':
             if s[1] is None: return ret(st, ('void', ''))
-            return self.eval(s[1], st, env, lambda v: ret(st, v))
+            return self.eval(s[1], st, env, lambda v, st2: ret(st2, v))
         if t == 'for':
-            v, bound, body = s[1], s[2], s[3]
-            def loop(n):
-                if n != ('nat', '(List.length args)'):
-                    raise Untranslatable('loop bound is not len(args)')
-                inner = body[1] if body[0] == 'block' else [body]
-                if len(inner) != 1 or inner[0][0] != 'if' or inner[0][3] != ('block', []):
-                    raise Untranslatable('loop body is not a single `if (cond) { ...; return ...; }`')
-                a = 'a%d' % (self.fresh + 1); self.fresh += 1
-                env2 = dict(env, **{v: ('loopvar', a)})
-                def cond(c):
-                    if c[0] == 'bool': c = ('optbool', '(Some %s)' % c[1])
-                    self.need(c, 'optbool')
-                    def fell(st2, env3): raise Untranslatable('loop body does not return')
-                    hit = self.block([inner[0][2]], st, env, fell, ret)     # evaluated without the loop variable
-                    miss = go(st, env)
-                    return ('(match c_exists (fun %s => %s) args with None => CWild | Some true => %s | Some false => %s end)'
-                            % (a, c[1], hit, miss))
-                return self.eval(inner[0][1], st, env2, cond)
-            return self.eval(bound, st, env, loop)
+            return self.loop(s, st, env, go, ret)
         raise Untranslatable('statement form %s' % t)
+
+    def loop(self, s, st, env, go, ret):
+        """the loop forms these functions use — all of them a first-match search over the filter, in order:
+           A  for (i = 0; i < len(args); i++)              { if (COND) { ...; return ..; } }
+           A' for (i = 0; i < len(args) && !flag; i++)      { flag = COND; }
+           B  for (p = items; p != items + len(args); p++)  { if (COND on *p) { ...; return ..; } }   (Tuple walked by pointer)"""
+        v, init, c, body = s[1], s[2], s[3], s[4]
+        inner = body[1] if body[0] == 'block' else [body]
+        self.fresh += 1
+        a = 'a%d' % self.fresh
+
+        def search(condexpr, env2, hit, miss):
+            def got(cv, st1):
+                if cv[0] == 'bool': cv = ('optbool', '(Some %s)' % cv[1])
+                self.need(cv, 'optbool')
+                return ('(match c_exists (fun %s => %s) args with None => CWild | Some true => %s | Some false => %s end)'
+                        % (a, cv[1], hit(), miss()))
+            return self.eval(condexpr, st, env2, got)
+
+        def single_if():
+            if len(inner) != 1 or inner[0][0] != 'if' or inner[0][3] != ('block', []):
+                raise Untranslatable('loop body is not a single `if (cond) { ...; return ...; }`')
+            def fell(st2, env3): raise Untranslatable('loop body does not return')
+            return inner[0][1], lambda: self.block([inner[0][2]], st, env, fell, ret)
+
+        def bound_is_len(n):
+            if n != ('nat', '(List.length args)'): raise Untranslatable('loop bound is not len(args)')
+
+        def start(iv, st1):
+            if iv == ('nat', '0') and c[0] == 'bin' and c[1] == '<' and c[2] == ('id', v):
+                def b1(n, st2):
+                    bound_is_len(n)
+                    condexpr, hit = single_if()
+                    return search(condexpr, dict(env, **{v: ('loopvar', a)}), hit, lambda: go(st, env))
+                return self.eval(c[3], st1, env, b1)
+            if (iv == ('nat', '0') and c[0] == 'bin' and c[1] == '&&' and c[2][0] == 'bin' and c[2][1] == '<' and c[2][2] == ('id', v)
+                    and c[3][0] == 'un' and c[3][1] == '!' and c[3][2][0] == 'id'):
+                flag = c[3][2][1]
+                def b2(n, st2):
+                    bound_is_len(n)
+                    if len(inner) != 1 or inner[0][0] != 'assign' or inner[0][1] != ('id', flag) or env.get(flag, ('?',))[0] != 'bool':
+                        raise Untranslatable('loop with a flag is not `for (..; i < n && !flag; ..) { flag = COND; }`')
+                    f0 = env[flag]
+                    def got(cv, st3):
+                        if cv[0] == 'bool': cv = ('optbool', '(Some %s)' % cv[1])
+                        self.need(cv, 'optbool')
+                        val = ('optbool', '(if %s then Some true else c_exists (fun %s => %s) args)' % (f0[1], a, cv[1]))
+                        return go(st, dict(env, **{flag: val}))
+                    return self.eval(inner[0][2], st, dict(env, **{v: ('loopvar', a)}), got)
+                return self.eval(c[2][3], st1, env, b2)
+            if iv == ('items', 'args') and c[0] == 'bin' and c[1] == '!=' and c[2] == ('id', v):
+                def b3(n, st2):
+                    if n != ('items_end', 'args'): raise Untranslatable('pointer walk does not end at items + len(args)')
+                    condexpr, hit = single_if()
+                    return search(condexpr, dict(env, **{v: ('ptrvar', a)}), hit, lambda: go(st, env))
+                return self.eval(c[3], st1, env, b3)
+            raise Untranslatable('loop form')
+        return self.eval(init, st, env, start)
 
 
 def translate(body_text, params, helpers, consts):
@@ -395,22 +488,20 @@ Definition c_eq (eqf : nat -> nat -> bool) (a : nat) (o : option nat) : option b
 '''
 
 
-def gallina(bodies, max_name='exc_max_depth'):
-    """bodies: {C function name: body text}; returns the text of Module ExnTr or raises Untranslatable"""
-    helpers = {}
-    for name, params in (('Exception_Len', ['self']), ('Exception_Buffer', ['e'])):
-        if bodies.get(name) is None: raise Untranslatable('%s not found' % name)
-        helpers[name] = (params, Parser(bodies[name]).block())
+def gallina(bodies, helper_srcs, max_name='exc_max_depth'):
+    """bodies: {C function name: body text} of the five translated functions; helper_srcs: {name: ([param
+    names], body text)} of the static functions of the file (inlined where called).  Returns the text of
+    Module ExnTr or raises Untranslatable"""
     consts = {'EXCEPTION_MAX_DEPTH': max_name}
     out = [PRELUDE]
     specs = (('exception_try', 'tr_exception_try', '(env : nat)', {'env': ('nat', 'env')}),
              ('exception_try_end', 'tr_exception_try_end', '', {}),
              ('exception_try_fail', 'tr_exception_try_fail', '', {}),
              ('exception_throw', 'tr_exception_throw', '(setmsg : nat -> nat) (o : nat)', {'obj': ('obj', '(Some o)'), 'fmt': ('fmt', ''), 'args': ('fargs', '')}),
-             ('exception_catch', 'tr_exception_catch', '(eqf : nat -> nat -> bool) (args : list nat)', {'args': ('list', 'args')}))
+             ('exception_catch', 'tr_exception_catch', '(eqf : nat -> nat -> bool) (args_is_tuple : bool) (args : list nat)', {'args': ('list', 'args')}))
     for cname, gname, binders, params in specs:
         if bodies.get(cname) is None: raise Untranslatable('%s not found' % cname)
-        term = translate(bodies[cname], params, helpers, consts)
+        term = translate(bodies[cname], params, dict(helper_srcs), consts)
         out.append('(* %s *)\nDefinition %s %s (s : cstate) : cout :=\n  %s.\n' % (cname, gname, binders, term))
     out.append('End ExnTr.')
     return '\n'.join(out)
